@@ -234,6 +234,11 @@ type RScen struct {
 	MaxOut   int           `json:"max_out,omitempty"`
 	Extra    int           `json:"extra,omitempty"`     // further Reads after the first error (default 3)
 	CloseEnd bool          `json:"close_end,omitempty"` // call Close after the stickiness reads
+	// Then: after the stream under test has ended, the same Reader is Reset onto
+	// this further input (delivered through a plain, non-bufio source) and
+	// drained; only afterwards is the first source inspected. A Reader must not
+	// touch a source it has been reset away from.
+	Then *InputSpec `json:"then,omitempty"`
 	// ExtraBetween (NoMulti): further Reads after each member's io.EOF, before
 	// the next Reset; each must return (0, io.EOF) and consume nothing.
 	ExtraBetween int `json:"extra_between,omitempty"`
@@ -269,6 +274,8 @@ type RRec struct {
 	Src               *kern.SimSource
 	ReadAfterEndCalls int
 	BetweenBad        string
+	ThenDone          bool
+	ThenOut           int
 }
 
 type byteReaderSrc struct {
@@ -670,6 +677,17 @@ func RunR(t *kern.Task, log *kern.Log, sc *RScen, fast bool) (rec *RRec) {
 	}
 	if sc.CloseEnd {
 		rd.cl.Close()
+	}
+	if sc.Then != nil {
+		if tb := sc.Then.Build(); tb.BuildErr == "" {
+			tsrc, _, _ := makeSource(t, log, "then", tb.Bytes, kern.Delivery{}, SrcSpec{Kind: "plain"})
+			if e := rd.reset(tsrc, nil); e == nil {
+				var dummy RRec
+				out, _ := drain(rd.rd, nil, -1, maxOut, &dummy)
+				rec.ThenOut = len(out)
+			}
+			rec.ThenDone = true
+		}
 	}
 	rec.SrcRest, rec.SrcRestKnown = rest()
 	return rec
